@@ -412,7 +412,8 @@ def _used_names_in_file(filename: Path) -> Collection[str]:
         names.extend(alias.name for alias in node.names if alias.name != "*")
 
     for node in core.walk(ast_root, (ast.Name, ast.Attribute)):
-        if isinstance(node, ast.Name) and node.id in imported_names:
+        if isinstance(node, ast.Name) and (node.id in imported_names or "*" in imported_names):
+            # With a starred import, any name may come from the imported module.
             names.append(node.id)
 
         elif isinstance(node, ast.Attribute):
